@@ -325,6 +325,13 @@ def w_funcdecl_list : Prog :=
 
 example : supportedProg false w_funcdecl_list = false ∧ supportedProg true w_funcdecl_list = false := by decide +kernel
 
+/-- `for i in 1 2; do x=$( break; echo "x" ); echo "y$x"; done` -/
+def w_break_cmdsubst : Prog :=
+  (.cons (.mk false (.forc [105] [[49], [50]] (.cons (.mk false (.assignSub [120] (.cons (.mk false (.brk none)) (.cons (.mk false (.echo [.lit [120]])) .nil)))) (.cons (.mk false (.echo [.lit [121], .var [120]])) .nil)))) .nil)
+
+theorem cex_break_cmdsubst : runFile 40 w_break_cmdsubst ≠ Bash.semFile 40 w_break_cmdsubst := by decide +kernel
+example : supportedProg false w_break_cmdsubst = false ∧ supportedProg true w_break_cmdsubst = false := by decide +kernel
+
 /-- The full statement is false. -/
 theorem run_eq_bashsem_statement_false : ¬ run_eq_bashsem_statement :=
   fun h => cex_break_nested (h 40 w_break_nested)
